@@ -59,6 +59,20 @@ type driver struct {
 	path string
 }
 
+var sockDirSeq int64
+var sockDirMu sync.Mutex
+
+// sockDir returns a fresh directory for the unix sockets of one driver process.
+func sockDir(c *core.Ctx) string {
+	sockDirMu.Lock()
+	sockDirSeq++
+	n := sockDirSeq
+	sockDirMu.Unlock()
+	d := filepath.Join(c.Scratch, fmt.Sprintf("u%d", n))
+	_ = os.MkdirAll(d, 0o755)
+	return d
+}
+
 func startDriver(path string, limit time.Duration) (*driver, error) {
 	// halt_on_error=0: keep running after a report, so the trace is still recorded
 	env := append(os.Environ(), "GORACE=halt_on_error=0")
